@@ -1,7 +1,7 @@
 """C09 - allocators (structural clauses)."""
 import re
 
-from gsa.cfg import Fn, S, is_call, is_assign, walk, lit
+from gsa.cfg import Fn, S, canon, is_call, is_assign, walk, lit
 from gsa import lock as L
 from gsa.layout import Poly, Interp
 from gsa import rules as R
@@ -463,6 +463,52 @@ def siblings(ctx, fx):
                 if len(e.get("a") or []) < 2 or S(e["a"][1]) != offp:
                     det.append("rollback installs %s, expected the offset being returned" % (S(e["a"][1]) if len(e.get("a") or []) > 1 else None))
         ctx.ob("C09.sibling.size-class", PB + "allocOffset", not det, "; ".join(det), fa.loc(), "offsets", fnkey=a[0]["key"])
+    # the bump path of allocOffset is a check-then-act on an atomic: `load + size <= limit` can hold for two threads at once,
+    # so only the value that fetch_add itself returned says whether THIS request fitted
+    ctx.rule("C09.offsets.bump-recheck",
+             "PerBackend::allocOffset: the offset handed out from the bump region is the value returned by "
+             "nextLoc.fetch_add(size), and it is returned only on a path where that very value satisfies "
+             "value + size <= ptAllocSize (the earlier test of a separate load does not count: two threads can both pass it "
+             "for the last bytes); otherwise the request falls through to the free lists")
+    if a:
+        fa = ctx.fn(a[0])
+        det = []
+        rmw = [(p, e) for p, e in fa.events(lambda e: e.get("k") == "atomic" and e.get("kind") == "rmw" and e.get("p") == "this->nextLoc")]
+        ctx.floor("PerBackend::allocOffset bump (fetch_add on nextLoc)", len(rmw), 1)
+        sizen = size_of.get("allocOffset") if "size_of" in dir() else None
+        for p, e in rmw:
+            # the local that holds the result
+            holder = [(q, d) for q, d in fa.events(lambda d: d.get("k") == "decl" and "init" in d and
+                                                   any(x is e or (isinstance(x, dict) and x.get("k") in ("atomic", "call") and
+                                                                  "fetch_add" in S(x)) for x in walk(d["init"])))]
+            rets_direct = [r for _, r in fa.events(lambda r: r.get("k") == "ret" and "fetch_add" in S(r.get("e")))]
+            if rets_direct:
+                det.append("the result of nextLoc.fetch_add is returned without being compared with the capacity: two threads "
+                           "that both passed the load-based test get offsets past the end of the per-thread region")
+            for q, d in holder:
+                x = d["n"]
+
+                def fits(t, x=x):
+                    c = canon(t)
+                    while isinstance(c, dict) and c.get("k") in ("cast", "paren"):
+                        c = c.get("e")
+                    if not (isinstance(c, dict) and c.get("k") == "bin" and c.get("op") in ("<=", "<")):
+                        return False
+                    l, r = c["l"], c["r"]
+                    names = sorted(S(y) for y in walk(l) if isinstance(y, dict) and y.get("k") == "ref")
+                    plus = isinstance(l, dict) and l.get("k") == "bin" and l.get("op") == "+"
+                    return plus and x in names and len(names) == 2 and (sizen is None or sizen in names) and S(r).endswith("ptAllocSize")
+                ge = fa.guard_edges(fits, True)
+                retx = lambda r, x=x: r.get("k") == "ret" and S(r.get("e")) == x
+                redecl = lambda r, x=x: r.get("k") == "decl" and r.get("n") == x      # another variable of the same name
+                h, _ = fa.search([fa.after(q)], stop=lambda r: retx(r) or redecl(r), edge_ok=lambda b, i, s_: (b, i) not in ge)
+                h = [y for y in h if retx(fa.ev(y))]
+                if h:
+                    det.append("the offset returned by fetch_add is handed out (line %s) without `%s + size <= ptAllocSize` "
+                               "having been established for it" % (fa.ev(h[0]).get("l"), x))
+            if not holder and not rets_direct:
+                det.append("the result of nextLoc.fetch_add is dropped")
+        ctx.ob("C09.offsets.bump-recheck", PB + "allocOffset", not det, "; ".join(det), fa.loc(), "bump", fnkey=a[0]["key"])
     # AddHeader
     ah = [f for f in fx.functions if f.get("cls") == RT + "AddHeader" and f["kind"] == "inst"]
     by = {}
